@@ -390,7 +390,7 @@ def main():
     else:
         cdir = os.path.join(ROOT, "corpus", prop)
         for f in sorted(glob.glob(os.path.join(cdir, "*.scn"))):
-            lines += [l.strip() for l in open(f) if l.startswith("SCN ")]
+            lines += [l.strip().replace("@FSROOT@", gens.FSROOT.encode().hex()) for l in open(f) if l.startswith("SCN ")]
         ncorpus = len(lines)
         gen = getattr(gens, "gen_" + prop)
         count = int(desc["count"][tier] * a.budget)
